@@ -31,6 +31,7 @@ type freshCtx struct {
 	used  map[string]bool // assumptions used (A-CODEC-FRESH ...)
 	field string          // non-empty: only this field of the (struct) result is claimed
 	pc    *PkgContracts
+	strict bool           // newspine: an argument's storage does not count as new
 	spine bool            // freshspine: only the returned container (slice/map backing store) must be new, its elements may alias
 	why   string
 }
@@ -86,8 +87,8 @@ func (c *freshCtx) typeOf(e ast.Expr) types.Type {
 }
 
 // freshResult decides the `fresh rK` obligation of decl.
-func (E *Engine) freshResult(p *packages.Package, pc *PkgContracts, decl *ast.FuncDecl, k int, spine bool, field string) (bool, string, []string) {
-	c := &freshCtx{E: E, p: p, pc: pc, info: p.TypesInfo, decl: decl, param: map[types.Object]bool{}, busy: map[types.Object]bool{}, used: map[string]bool{}, spine: spine, field: field}
+func (E *Engine) freshResult(p *packages.Package, pc *PkgContracts, decl *ast.FuncDecl, k int, spine bool, field string, strict ...bool) (bool, string, []string) {
+	c := &freshCtx{strict: len(strict) > 0 && strict[0], E: E, p: p, pc: pc, info: p.TypesInfo, decl: decl, param: map[types.Object]bool{}, busy: map[types.Object]bool{}, used: map[string]bool{}, spine: spine, field: field}
 	ok := c.funcFresh(decl, k)
 	var used []string
 	for u := range c.used {
@@ -269,7 +270,7 @@ func (c *freshCtx) expr(e ast.Expr) bool {
 		if v.Parent() == c.p.Types.Scope() || v.Pkg() != c.p.Types {
 			return c.fail("package-level variable %s", x.Name)
 		}
-		if c.isParamOf(o) && c.spine {
+		if c.isParamOf(o) && c.spine && !c.strict {
 			return true // the caller's own argument handed back: no new sharing is created
 		}
 		if c.isParamOf(o) {
